@@ -634,17 +634,24 @@ pub fn check_fault_free(case: &Case, ctx: &mut Ctx) {
     let settings = case.settings.build();
     ctx.exec(1);
     let size = case.reg.size();
+    // findings are identified by the INPUT that fails, not by the form the failure takes (a panic that becomes
+    // an error is the same defect): the one recorded input class is a registry with `PhantomData` in type position
+    let class = if reg.types.iter().any(|t| t.ty.path.segments.len() == 1 && t.ty.path.segments[0] == "PhantomData") {
+        "phantomdata-in-type-position/"
+    } else {
+        ""
+    };
     match generate(&reg, &settings) {
         GenOutcome::Ok { .. } => ctx.outcome(&"ok"),
         GenOutcome::Err(ErrKind::DuplicateTypePath(_)) => ctx.outcome(&"dup"),
         GenOutcome::Err(e) => ctx.violation(
-            format!("C10/fault-free/error/{}", e.name()),
+            format!("C10/fault-free/{class}error/{}", e.name()),
             format!("generation on a well-formed registry fails with {e:?}"),
             case.replay("C10-free"),
             size,
         ),
         GenOutcome::Panic(m) => ctx.violation(
-            format!("C10/fault-free/{}/generate-panic", truncate(&m, 50)),
+            format!("C10/fault-free/{class}{}/generate-panic", truncate(&m, 50)),
             format!("generation on a well-formed registry panics: {m}"),
             case.replay("C10-free"),
             size,
@@ -657,13 +664,13 @@ pub fn check_fault_free(case: &Case, ctx: &mut Ctx) {
     }) {
         Ok(Ok(())) => {}
         Ok(Err(e)) => ctx.violation(
-            format!("C10/fault-free/dedup-error/{}", e.name()),
+            format!("C10/fault-free/{class}dedup-error/{}", e.name()),
             format!("ensure_unique_type_paths on a well-formed registry: {e:?}"),
             case.replay("C10-free"),
             size,
         ),
         Err(p) => ctx.violation(
-            format!("C10/fault-free/{}/dedup-panic", truncate(&p, 50)),
+            format!("C10/fault-free/{class}{}/dedup-panic", truncate(&p, 50)),
             format!("ensure_unique_type_paths panics: {p}"),
             case.replay("C10-free"),
             size,
@@ -674,13 +681,13 @@ pub fn check_fault_free(case: &Case, ctx: &mut Ctx) {
         match resolve_path(&reg, &settings, id) {
             Ok(Ok(_)) => {}
             Ok(Err(e)) => ctx.violation(
-                format!("C10/fault-free/resolve-error/{}", e.name()),
+                format!("C10/fault-free/{class}resolve-error/{}", e.name()),
                 format!("resolve_type_path({id}) on a well-formed registry: {e:?}"),
                 case.replay("C10-free"),
                 size,
             ),
             Err(p) => ctx.violation(
-                format!("C10/fault-free/{}/resolve-panic", truncate(&p, 50)),
+                format!("C10/fault-free/{class}{}/resolve-panic", truncate(&p, 50)),
                 format!("resolve_type_path({id}) panics: {p}"),
                 case.replay("C10-free"),
                 size,
